@@ -90,6 +90,7 @@ var published = []Prim{
 	{Name: "Bruce RGB", R: [2]float32{0.64, 0.33}, G: [2]float32{0.28, 0.65}, B: [2]float32{0.15, 0.06}, W: [2]float32{0.3127, 0.3290}},
 	{Name: "Don RGB 4", R: [2]float32{0.696, 0.3}, G: [2]float32{0.215, 0.765}, B: [2]float32{0.13, 0.035}, W: [2]float32{0.3457, 0.3585}},
 	{Name: "Ekta Space PS5", R: [2]float32{0.695, 0.305}, G: [2]float32{0.26, 0.7}, B: [2]float32{0.11, 0.005}, W: [2]float32{0.3457, 0.3585}},
+	{Name: "ACES AP0 (ST 2065-1)", R: [2]float32{0.7347, 0.2653}, G: [2]float32{0, 1}, B: [2]float32{0.0001, -0.0770}, W: [2]float32{0.32168, 0.33767}},
 	{Name: "ACEScg AP1", R: [2]float32{0.713, 0.293}, G: [2]float32{0.165, 0.830}, B: [2]float32{0.128, 0.044}, W: [2]float32{0.32168, 0.33767}},
 }
 
@@ -123,7 +124,8 @@ func checkPrim(p Prim) (kind, what string, cond float64) {
 	w := T.MulV(ref.V3{1, 1, 1})
 	ww := ref.XYZOf(refXY(p.W), wy)
 	for i := 0; i < 3; i++ {
-		if !(math.Abs(w[i]-ww[i]) <= tol) {
+		// the library forms X = x*Y/y in float32: the error is relative to the component
+		if !(math.Abs(w[i]-ww[i]) <= tol*math.Max(1, math.Abs(ww[i])/wy)) {
 			return "white", fmt.Sprintf("M*(1,1,1) = %v, white XYZ %v (tol %.3g)", w, ww, tol), cond
 		}
 	}
@@ -239,7 +241,15 @@ func checkMat(c MatCase) (kind, what string) {
 }
 
 func genXY(rt *rapid.T, label string) [2]float32 {
-	return [2]float32{rapid.Float32Range(0.01, 0.8).Draw(rt, label+"x"), rapid.Float32Range(0.01, 0.85).Draw(rt, label+"y")}
+	c := [2]float32{rapid.Float32Range(0.01, 0.8).Draw(rt, label+"x"), rapid.Float32Range(0.01, 0.85).Draw(rt, label+"y")}
+	if rapid.IntRange(0, 9).Draw(rt, label+"imaginary") == 0 {
+		// imaginary primaries as in ACES AP0: slightly outside the diagram, x or y zero or negative (y never ~0)
+		c[0] = rapid.Float32Range(-0.1, 0.05).Draw(rt, label+"xneg")
+		if rapid.Bool().Draw(rt, label+"yneg") {
+			c[1] = rapid.Float32Range(-0.1, -0.02).Draw(rt, label+"yn")
+		}
+	}
+	return c
 }
 
 func TestC20(t *testing.T) {
@@ -291,7 +301,7 @@ func TestC20(t *testing.T) {
 		for tries := 0; ; tries++ {
 			p.B = genXY(rt, "b")
 			area := 0.5 * math.Abs(float64(p.G[0]-p.R[0])*float64(p.B[1]-p.R[1])-float64(p.B[0]-p.R[0])*float64(p.G[1]-p.R[1]))
-			inside := func(c [2]float32) bool { return c[0]+c[1] <= 1 }
+			inside := func(c [2]float32) bool { return c[0]+c[1] <= 1.05 }
 			if area >= 0.01 && inside(p.R) && inside(p.G) && inside(p.B) {
 				break
 			}
@@ -307,6 +317,9 @@ func TestC20(t *testing.T) {
 			rt.Skip("white weight")
 		}
 		p.W = [2]float32{float32(w1*float64(p.R[0]) + w2*float64(p.G[0]) + w3*float64(p.B[0])), float32(w1*float64(p.R[1]) + w2*float64(p.G[1]) + w3*float64(p.B[1]))}
+		if math.Abs(float64(p.W[1])) < 0.05 {
+			rt.Skip("white with y ~ 0 (possible once imaginary primaries are allowed)")
+		}
 		if rapid.IntRange(0, 2).Draw(rt, "primlum") == 0 {
 			for i := range p.PY {
 				p.PY[i] = rapid.Float32Range(0.05, 2).Draw(rt, "py")
